@@ -190,6 +190,27 @@ def literal_count(rec):
     return k, nr
 
 
+def check_tiny_bases(rep):
+    """exact steps are rounded to the 2^-52 grid around 1 ((h + 1) - 1): a base step that rounds to zero yields NO steps (zero steps are dropped)"""
+    vlib.use_repo()
+    from numdifftools.step_generators import MinStepGenerator, MaxStepGenerator
+    from numdifftools.limits import CStepGenerator
+    n_ = 0
+    for G in (MinStepGenerator, MaxStepGenerator, CStepGenerator):
+        for b in (1e-17, 3e-17, 1e-16):
+            for m, n, o in (('central', 1, 2), ('forward', 2, 2), ('complex', 1, 2)):
+                try:
+                    got = [np.asarray(s_).tolist() for s_ in itertools.islice(G(base_step=b, step_ratio=2.0, num_steps=3, use_exact_steps=True)(1.0, m, n, o), 50)]
+                except Exception as ex:
+                    rep.violation('tiny-base:raises', dict(gen=G.__name__, base=b), '%s(base_step=%g, use_exact_steps=True) raised %r' % (G.__name__, b, ex))
+                    continue
+                n_ += 1
+                if got:
+                    rep.violation('tiny-base', dict(gen=G.__name__, base=b, method=m, n=n, order=o, got=got[:4]),
+                                  '%s(base_step=%g, step_ratio=2, num_steps=3, use_exact_steps=True)(1.0, %s, %d, %d) yields %s; the exact step (h + 1) - 1 is 0, and zero steps are dropped' % (G.__name__, b, m, n, o, got[:4]))
+    return n_
+
+
 def check_ln_table(rep):
     table = {2.0: 23, 3.0: 15, 4.0: 12, 8.0: 8, 16.0: 6, 1.5: 39, 10.0: 7}
     for r, v in table.items():
@@ -200,6 +221,7 @@ def check_ln_table(rep):
 def run(tier, rep):
     seed = vlib.seed_from_env()
     check_ln_table(rep)
+    ntiny = check_tiny_bases(rep)
     cfg = open(vlib.SPEC + '/MC_StepGen.cfg').read()
     if tier == 'quick':
         cfg = cfg.replace('ValN = {1, 2, 5, 8}', 'ValN = {1, 5}').replace('ValO = {1, 2, 3, 4, 6}', 'ValO = {2, 3}')
